@@ -422,6 +422,16 @@ def gen_cl_cases(kind):
                             continue
                         yield {"spelling": label, "size": size, "framing": framing,
                                "delivery": delivery, "clpos": pos}
+                # the header section (or the trailer section) refers to a QPACK dynamic-table entry whose
+                # insertion arrives on the encoder stream only AFTER the whole message, FIN included: the
+                # stream is blocked and the checks run when it is resumed
+                if label in ("0", "5", "00", "5,6", "absent", "2^64"):
+                    for blocked in ("headers", "trailers"):
+                        if blocked == "trailers" and framing != "trailers":
+                            continue
+                        for delivery in ("whole", "frames_fin_last", "frames_lone_fin"):
+                            yield {"spelling": label, "size": size, "framing": framing, "delivery": delivery,
+                                   "clpos": "last", "blocked": blocked}
 
 
 def cl_block(kind, case):
@@ -433,11 +443,29 @@ def cl_block(kind, case):
     return base + [(b"a", b"1")] + cls
 
 
+DYN_ENTRY = (b"x-dyn", b"1")
+
+
+def blocked_section(headers):
+    """Field section = literal lines for `headers` + one reference to dynamic-table entry 0, Required
+    Insert Count 1 (decodes to headers + [DYN_ENTRY] once the encoder stream has delivered the insert)."""
+    max_entries = 4096 // 32
+    enc_ric = (1 % (2 * max_entries)) + 1
+    return (R.section_prefix(enc_ric, 0, 0) + b"".join(R.literal_line(bytes(n), bytes(v)) for n, v in headers)
+            + R.dynamic_indexed_line(0))
+
+
 def run_cl(kind, case, trace=None):
     h3, q, sid = setup(kind)
     block = cl_block(kind, case)
     body = bytes((0x41 + i % 26) for i in range(case["size"]))
+    blocked = case.get("blocked")
     frames = [R.headers_frame(block)] + cl_frames(body, case["framing"])
+    if blocked == "headers":
+        frames[0] = R.frame(R.HEADERS, blocked_section(block))
+        block = block + [DYN_ENTRY]
+    elif blocked == "trailers":
+        frames[-1] = R.frame(R.HEADERS, blocked_section([(b"x-trailer", b"1")]))
     d = case["delivery"]
     if d == "whole":
         chunks = [(b"".join(frames), True)]
@@ -460,6 +488,15 @@ def run_cl(kind, case, trace=None):
         except Exception as e:  # noqa
             exc = e
             break
+    if blocked and exc is None:
+        if q.closed is None and not getattr(h3._stream.get(sid), "blocked", False):
+            raise core.HarnessError("the %s section did not block stream %d" % (blocked, sid))
+        enc_sid = 7 if sid in (0, 15) and kind in ("response", "push_response") else 6
+        try:
+            obs += summarize(h3.handle_event(sdr(enc_sid, R.uni_stream(
+                R.STREAM_QPACK_ENCODER, None, R.enc_set_capacity(4096) + R.enc_insert_literal(*DYN_ENTRY)))))
+        except Exception as e:  # noqa
+            exc = e
     v = R.check_headers(block, VKIND[kind])
     if trace is not None:
         trace("kind=%s case=%r" % (kind, case))
